@@ -234,7 +234,7 @@ Inductive step_kind (s : state) (l : label) (s' : state) (evs : list (nat * ev))
     l = LDeliver k -> nth_error (st_net s) k = Some (src, dst, m) ->
     existsb (same_pair src dst) (firstn k (st_net s)) = false ->
     nth_error (st_cs s) dst = Some c ->
-    on_message (length (st_cs s)) dst c m = (c', e, out) ->
+    on_message (st_cs s) (length (st_cs s)) dst c m = (c', e, out) ->
     s' = mkState (upd (st_cs s) dst c') (remove_nth k (st_net s) ++ out) -> evs = tag dst e ->
     step_kind s l s' evs out
 | SkLost : forall k src dst m,
@@ -262,7 +262,7 @@ Proof.
   - destruct (existsb (same_pair src dst) (firstn k (st_net s))) eqn:Hb.
     + inversion H; subst. now apply SkStutter.
     + destruct (nth_error (st_cs s) dst) as [c|] eqn:Hc.
-      * destruct (on_message (length (st_cs s)) dst c m) as [[c' e] o] eqn:Hm.
+      * destruct (on_message (st_cs s) (length (st_cs s)) dst c m) as [[c' e] o] eqn:Hm.
         inversion H; subst. eapply SkDeliver; eauto.
       * inversion H; subst. eapply SkLost; eauto.
   - inversion H; subst. now apply SkStutter.
@@ -471,9 +471,9 @@ Proof.
   apply cinv_set_sco; auto.
 Qed.
 
-Lemma cinv_message : forall n j c m c' e o, cinv c -> on_message n j c m = (c', e, o) -> cinv c'.
+Lemma cinv_message : forall cs n j c m c' e o, cinv c -> on_message cs n j c m = (c', e, o) -> cinv c'.
 Proof.
-  intros n j c m c' e o I H. destruct m; simpl in H.
+  intros cs n j c m c' e o I H. destruct m; simpl in H.
   - (* MAdv *) unfold on_adv in H.
     destruct (c_pending c) as [[peer own]|]; [|inversion H; subst; assumption].
     destruct (peer =? adv); [|inversion H; subst; assumption].
@@ -535,6 +535,7 @@ Proof.
     destruct (set_address c s); inversion H; subst; assumption.
   - (* LScanParams *) destruct (c_scan c); inversion H; subst; first [assumption | same_tables].
   - (* LConnect *) destruct (c_pending c); inversion H; subst; first [assumption | same_tables].
+  - (* LCancel *) destruct (c_pending c) as [[pp po]|]; inversion H; subst; first [assumption | same_tables].
   - (* LAcl *) unfold send_acl in H. destruct (conn_by_handle c h) as [[[|] k]|]; [| |inversion H; subst; assumption].
     + destruct (find_le cs (k_peer k)); inversion H; subst; assumption.
     + destruct (find_classic cs (k_peer k)); inversion H; subst; assumption.
@@ -677,13 +678,31 @@ Qed.
 
 Ltac keep_ainv := (eapply ainv_same_le_sets; [| | | eassumption]; [reflexivity | reflexivity | split; reflexivity]).
 
+Lemma own_address_owns : forall c a, ainv c -> own_address c a = true -> owns c a.
+Proof.
+  unfold own_address. intros c a I H. apply orb_true_iff in H. destruct H as [H|H].
+  - apply orb_true_iff in H. destruct H as [H|H]; apply Z.eqb_eq in H; [now left | now right].
+  - apply existsb_exists in H. destruct H as [s [Hs Ha]]. unfold opt_eqb in Ha.
+    destruct (set_address c s) as [x|] eqn:E; [|discriminate]. apply Z.eqb_eq in Ha. subst x.
+    eapply set_address_owns; eauto.
+Qed.
+
+Lemma refuse_ok : forall cs j c init adv s d x, ainv c -> In (s, d, x) (refuse cs j c init adv) ->
+  s = j /\ msg_ok c x.
+Proof.
+  unfold refuse. intros cs j c init adv s d x I H.
+  destruct (own_address c adv) eqn:E; [|contradiction].
+  destruct (find_le cs init); [|contradiction]. destruct H as [H|[]]. inversion H; subst.
+  split; [reflexivity|]. simpl. now apply own_address_owns.
+Qed.
+
 Ltac trivial_msg := (split; [split; reflexivity|]; split; [assumption | intros ? ? ? []]).
 
 (* what one message delivery does to addresses, to the address invariant and what it sends *)
-Lemma message_ainv : forall n j c m c' e o, ainv c -> on_message n j c m = (c', e, o) ->
+Lemma message_ainv : forall cs n j c m c' e o, ainv c -> on_message cs n j c m = (c', e, o) ->
   addr_same c c' /\ ainv c' /\ (forall s d x, In (s, d, x) o -> s = j /\ msg_ok c x).
 Proof.
-  intros n j c m c' e o I H. destruct m; simpl in H.
+  intros cs n j c m c' e o I H. destruct m; simpl in H.
   - (* MAdv *) unfold on_adv in H.
     destruct (c_pending c) as [[peer own]|]; [|inversion H; subst; trivial_msg].
     destruct (peer =? adv); [|inversion H; subst; trivial_msg].
@@ -705,7 +724,9 @@ Proof.
       eapply ainv_same_le_sets with (c := set_le c (tbl_set (c_le c) (mkConn init adv h false)));
         [reflexivity | reflexivity | split; reflexivity |]. apply ainv_le_set; [assumption|].
       simpl. rewrite <- E. unfold leg_address. destruct (c_leg_pub c); [now left | now right].
-    + destruct (find_set c (c_sets c) adv) as [s0|] eqn:F; [|inversion H; subst; trivial_msg].
+    + destruct (find_set c (c_sets c) adv) as [s0|] eqn:F;
+        [|inversion H; subst; split; [split; reflexivity|]; split; [assumption|];
+          intros ps pd px Hin; eapply refuse_ok; eauto].
       destruct (alloc c) as [h|]; [|inversion H; subst; trivial_msg]. inversion H; subst.
       apply find_set_in in F. destruct F as [F1 [F2 F3]].
       split; [split; reflexivity|]. split; [|intros s d x []].
@@ -821,6 +842,8 @@ Proof.
     split; [split; reflexivity|]. split; [keep_ainv | intros ? ? ? []].
   - inversion H; subst. split; [split; reflexivity|]. split; [keep_ainv | intros ? ? ? []].
   - (* LConnect *) destruct (c_pending c); inversion H; subst; [trivial_msg|].
+    split; [split; reflexivity|]. split; [keep_ainv | intros ? ? ? []].
+  - (* LCancel *) destruct (c_pending c) as [[pp po]|]; inversion H; subst; [|trivial_msg].
     split; [split; reflexivity|]. split; [keep_ainv | intros ? ? ? []].
   - (* LAcl *) unfold send_acl in H. destruct (conn_by_handle c h) as [[[|] k]|]; [| |inversion H; subst; trivial_msg].
     + destruct (find_le cs (k_peer k)); inversion H; subst; [|trivial_msg].
@@ -939,7 +962,7 @@ Proof.
     destruct (local_ainv _ _ _ _ _ _ _ _ Ha Hst H1) as [Hs [Ha' Hout]].
     eapply ginv_update; eauto. eapply cinv_local; eauto.
   - subst s'. destruct (g_c s I _ _ H2) as [Hc Ha].
-    destruct (message_ainv _ _ _ _ _ _ _ Ha H3) as [Hs [Ha' Hout]].
+    destruct (message_ainv _ _ _ _ _ _ _ _ Ha H3) as [Hs [Ha' Hout]].
     eapply ginv_update; eauto; [eapply cinv_message; eauto | intros x; apply remove_nth_in].
   - subst s'. destruct I as [Gc Gn Gu]. constructor; simpl; auto.
     intros sr d x Hin. apply remove_nth_in in Hin. exact (Gn _ _ _ Hin).
@@ -1207,7 +1230,7 @@ Ltac unfold_handlers H :=
          on_adv, create_le_connection, on_connect_ind, on_terminate, on_acl, on_lmp_conn_req,
          on_lmp_accepted, on_lmp_detach, classic_complete, sco_setup, sco_accept, sco_complete, set_cig,
          on_lmp_esco_req, on_lmp_accepted_esco, on_lmp_remove_sco in H;
-  unfold sco_complete, classic_complete in H.
+  unfold sco_complete, classic_complete, refuse in H.
 
 Lemma local_no_acl : forall cs n i c l c' e o h d, local cs n i c l = (c', e, o) -> ~ In (EAcl h d) e.
 Proof.
@@ -1215,10 +1238,10 @@ Proof.
   destruct l; simpl in H; unfold_handlers H; break_all; inv_pairs; no_ev Hin.
 Qed.
 
-Lemma message_acl : forall n j c m c' e o h d, on_message n j c m = (c', e, o) -> In (EAcl h d) e ->
+Lemma message_acl : forall cs n j c m c' e o h d, on_message cs n j c m = (c', e, o) -> In (EAcl h d) e ->
   exists a le, m = MAcl a le d.
 Proof.
-  intros n j c m c' e o h d H Hin.
+  intros cs n j c m c' e o h d H Hin.
   destruct m; simpl in H; unfold_handlers H; break_all; inv_pairs; no_ev Hin.
   all: inversion Hin; subst; eauto.
 Qed.
@@ -1233,7 +1256,7 @@ Proof.
   - exfalso. unfold tag in Hin. apply in_map_iff in Hin. destruct Hin as [x [Hx Hin]]. inversion Hx; subst.
     eapply local_no_acl; eauto.
   - unfold tag in Hin. apply in_map_iff in Hin. destruct Hin as [x [Hx Hin]]. inversion Hx; subst.
-    destruct (message_acl _ _ _ _ _ _ _ _ _ H3 Hin) as [a [le ->]]. eauto 8.
+    destruct (message_acl _ _ _ _ _ _ _ _ _ _ H3 Hin) as [a [le ->]]. eauto 8.
 Qed.
 
 (* ------------------------------------------------------------------ connection establishment *)
@@ -1241,30 +1264,35 @@ Qed.
    changes nothing and tells its host nothing.  A controller that reports a connection for
    it owns b, files the connection under the initiator's address a with own address b and
    a freshly allocated handle, in the peripheral role.  Nothing is sent. *)
-Theorem connect_ind_effect : forall n j c a b c' e o, ainv c ->
-  on_message n j c (MConnInd a b) = (c', e, o) ->
-  o = [] /\
-  (~ owns c b -> c' = c /\ e = []) /\
+Theorem connect_ind_effect : forall cs n j c a b c' e o, ainv c ->
+  on_message cs n j c (MConnInd a b) = (c', e, o) ->
+  (~ owns c b -> c' = c /\ e = [] /\ o = []) /\
   (forall h ce p, In (ELeConn h ce p) e ->
-     ce = false /\ p = a /\ owns c b /\ alloc c = Some h /\
-     tbl_get (c_le c') a = Some (mkConn a b h false)).
+     ce = false /\ p = a /\ owns c b /\ alloc c = Some h /\ o = [] /\
+     tbl_get (c_le c') a = Some (mkConn a b h false)) /\
+  (o = [] \/ (c' = c /\ e = [] /\ owns c b /\ exists i, find_le cs a = Some i /\ o = [(j, i, MTerm b 62)])).
 Proof.
-  intros n j c a b c' e o I H. simpl in H. unfold on_connect_ind in H.
+  intros cs n j c a b c' e o I H. simpl in H. unfold on_connect_ind in H.
   destruct (andb (leg_address c =? b) (c_leg_enabled c)) eqn:E.
   - apply andb_true_iff in E. destruct E as [E _]. apply Z.eqb_eq in E.
     assert (Ho : owns c b) by (rewrite <- E; unfold leg_address; destruct (c_leg_pub c); [now left | now right]).
-    destruct (alloc c) as [h|] eqn:Ha; inversion H; subst; (split; [reflexivity|]); (split; [intros Hn; contradiction|]).
+    destruct (alloc c) as [h|] eqn:Ha; inversion H; subst; (split; [intros Hn; contradiction|]); (split; [|now left]).
     + intros h0 ce p [Hin|[]]. inversion Hin; subst. repeat split; auto. simpl.
       apply (tbl_get_set_same (c_le c) (mkConn p (leg_address c) h0 false)).
     + intros h0 ce p [Hin|[]]. discriminate.
   - destruct (find_set c (c_sets c) b) as [s0|] eqn:F.
     + apply find_set_in in F. destruct F as [F1 [F2 F3]].
       assert (Ho : owns c b) by (eapply set_address_owns; eauto).
-      destruct (alloc c) as [h|] eqn:Ha; inversion H; subst; (split; [reflexivity|]); (split; [intros Hn; contradiction|]).
+      destruct (alloc c) as [h|] eqn:Ha; inversion H; subst; (split; [intros Hn; contradiction|]); (split; [|now left]).
       * intros h0 ce p [Hin|[Hin|[]]]; [|discriminate]. inversion Hin; subst. repeat split; auto. simpl.
         apply (tbl_get_set_same (c_le c) (mkConn p b h0 false)).
       * intros h0 ce p [Hin|[]]. discriminate.
-    + inversion H; subst. split; [reflexivity|]. split; [auto|]. intros h ce p [].
+    + inversion H; subst. unfold refuse.
+      destruct (own_address c' b) eqn:Eo.
+      * pose proof (own_address_owns _ _ I Eo) as Ho.
+        split; [intros Hn; contradiction|]. split; [intros h ce p []|].
+        destruct (find_le cs a) as [i|]; [right; repeat split; eauto | now left].
+      * split; [auto|]. split; [intros h ce p []| now left].
 Qed.
 
 Definition is_report (e : ev) : bool := match e with EAdvReport _ _ _ _ => true | _ => false end.
@@ -1276,8 +1304,8 @@ Definition is_report (e : ev) : bool := match e with EAdvReport _ _ _ _ => true 
    - a central connection is reported only when a connection to b was pending; it is to b,
      under the own address the host asked for, with a fresh handle, and the ConnectInd is
      broadcast; otherwise nothing is sent and the LE table is unchanged. *)
-Theorem adv_effect : forall n i c b data srsp c' e o,
-  on_message n i c (MAdv b data srsp) = (c', e, o) ->
+Theorem adv_effect : forall cs n i c b data srsp c' e o,
+  on_message cs n i c (MAdv b data srsp) = (c', e, o) ->
   filter is_report e =
     (if c_scan c then EAdvReport (c_extrep c) false b data ::
                       (if c_active c then [EAdvReport (c_extrep c) true b srsp] else []) else []) /\
@@ -1288,7 +1316,7 @@ Theorem adv_effect : forall n i c b data srsp c' e o,
        o = broadcast n i (MConnInd (if own then c_public c else c_random c) b) /\ c_pending c' = None) /\
   ((forall h ce p, ~ In (ELeConn h ce p) e) -> o = [] /\ c_le c' = c_le c).
 Proof.
-  intros n i c b data srsp c' e o H. simpl in H. unfold on_adv, create_le_connection in H.
+  intros cs n i c b data srsp c' e o H. simpl in H. unfold on_adv, create_le_connection in H.
   set (reports := if c_scan c then EAdvReport (c_extrep c) false b data ::
                       (if c_active c then [EAdvReport (c_extrep c) true b srsp] else []) else []) in *.
   assert (Hr : filter is_report reports = reports).
@@ -1478,6 +1506,92 @@ Proof.
     + intros [[->|Hx] Hne]; [now left | right; auto].
 Qed.
 
+(* ------------------------------------------------------------------ the caller is handed that connection *)
+Lemma local_no_leconn : forall cs n i c l c' e o h ce p, local cs n i c l = (c', e, o) -> ~ In (ELeConn h ce p) e.
+Proof.
+  intros cs n i c l c' e o h ce p H Hin.
+  destruct l; simpl in H; unfold_handlers H; break_all; inv_pairs; no_ev Hin.
+Qed.
+
+Lemma message_central_conn : forall cs n j c m c' e o h p, on_message cs n j c m = (c', e, o) ->
+  In (ELeConn h true p) e -> exists d sr, m = MAdv p d sr.
+Proof.
+  intros cs n j c m c' e o h p H Hin.
+  destruct m; simpl in H.
+  - destruct (adv_effect cs _ _ _ _ _ _ _ _ _ H) as [_ [Hc _]]. destruct (Hc _ _ _ Hin) as [_ [-> _]]. eauto.
+  - exfalso. unfold_handlers H; break_all; inv_pairs; no_ev Hin.
+  - exfalso. unfold_handlers H; break_all; inv_pairs; no_ev Hin.
+  - exfalso. unfold_handlers H; break_all; inv_pairs; no_ev Hin.
+  - exfalso. unfold_handlers H; break_all; inv_pairs; no_ev Hin.
+  - exfalso. unfold_handlers H; break_all; inv_pairs; no_ev Hin.
+  - exfalso. unfold_handlers H; break_all; inv_pairs; no_ev Hin.
+  - exfalso. unfold_handlers H; break_all; inv_pairs; no_ev Hin.
+  - exfalso. unfold_handlers H; break_all; inv_pairs; no_ev Hin.
+  - exfalso. unfold_handlers H; break_all; inv_pairs; no_ev Hin.
+Qed.
+
+(* Whatever event completes the pending LE connect() of device i (Device.connect_le's matching
+   rule) is the connection to the address that connect() asked for: it is reported only while
+   that very connection is pending in the controller, it is filed under that address with the
+   own address asked for, and it ends the pending state, so no second event can complete the
+   same call.  A connection accepted as a peripheral while the call is pending never matches. *)
+Theorem connect_le_handed : forall s l s' evs out i e, step s l = (s', evs, out) ->
+  In (i, e) evs -> completes_le e = true ->
+  exists h t own c c', e = ELeConn h true t /\
+    nth_error (st_cs s) i = Some c /\ c_pending c = Some (t, own) /\
+    nth_error (st_cs s') i = Some c' /\ c_pending c' = None /\
+    tbl_get (c_le c') t = Some (mkConn t (if own then c_public c else c_random c) h true).
+Proof.
+  intros s l s' evs out i e H Hin Hc.
+  destruct e; try discriminate. destruct central; [|discriminate]. clear Hc.
+  apply step_shape in H. destruct H; subst; try contradiction.
+  - exfalso. unfold tag in Hin. apply in_map_iff in Hin. destruct Hin as [x [Hx Hin]]. inversion Hx; subst.
+    eapply local_no_leconn; eauto.
+  - unfold tag in Hin. apply in_map_iff in Hin. destruct Hin as [x [Hx Hin]]. inversion Hx; subst.
+    destruct (message_central_conn _ _ _ _ _ _ _ _ _ _ H3 Hin) as [d [sr ->]].
+    destruct (adv_effect _ _ _ _ _ _ _ _ _ _ H3) as [_ [Hce _]].
+    destruct (Hce _ _ _ Hin) as [_ [_ [own [Hp [_ [_ [Hg [_ Hn]]]]]]]].
+    exists handle, peer, own, c, c'. repeat split; auto.
+    simpl. apply nth_upd_same. eapply nth_error_lt; eauto.
+Qed.
+
+Lemma completes_le_not_peripheral : forall h p, completes_le (ELeConn h false p) = false.
+Proof. reflexivity. Qed.
+
+(* BR/EDR: the matching rule compares the peer address; the connection handed over is the
+   entry of the classic table filed under that address *)
+Lemma local_clconn : forall cs n i c l c' e o h p, local cs n i c l = (c', e, o) -> In (EClConn h p) e ->
+  exists k, tbl_get (c_cl c') p = Some k /\ k_handle k = h.
+Proof.
+  intros cs n i c l c' e o h p H Hin.
+  destruct l; simpl in H; unfold_handlers H; break_all; inv_pairs; no_ev Hin.
+  all: inversion Hin; subst; eexists; split; [apply tbl_get_set_same | reflexivity].
+Qed.
+
+Lemma message_clconn : forall cs n j c m c' e o h p, on_message cs n j c m = (c', e, o) -> In (EClConn h p) e ->
+  exists k, tbl_get (c_cl c') p = Some k /\ k_handle k = h.
+Proof.
+  intros cs n j c m c' e o h p H Hin.
+  destruct m; simpl in H; unfold_handlers H; break_all; inv_pairs; no_ev Hin.
+  all: inversion Hin; subst; eexists; split; [apply tbl_get_set_same | reflexivity].
+Qed.
+
+Theorem connect_classic_handed : forall s l s' evs out i e t, step s l = (s', evs, out) ->
+  In (i, e) evs -> completes_classic t e = true ->
+  exists h c' k, e = EClConn h t /\ nth_error (st_cs s') i = Some c' /\
+    tbl_get (c_cl c') t = Some k /\ k_handle k = h.
+Proof.
+  intros s l s' evs out i e t H Hin Hc.
+  destruct e; try discriminate. simpl in Hc. apply Z.eqb_eq in Hc. subst peer.
+  apply step_shape in H. destruct H; subst; try contradiction.
+  - unfold tag in Hin. apply in_map_iff in Hin. destruct Hin as [x [Hx Hin]]. inversion Hx; subst.
+    destruct (local_clconn _ _ _ _ _ _ _ _ _ _ H1 Hin) as [k [Hk Hh]].
+    exists handle, c', k. repeat split; auto. simpl. apply nth_upd_same. eapply nth_error_lt; eauto.
+  - unfold tag in Hin. apply in_map_iff in Hin. destruct Hin as [x [Hx Hin]]. inversion Hx; subst.
+    destruct (message_clconn _ _ _ _ _ _ _ _ _ _ H3 Hin) as [k0 [Hk Hh]].
+    exists handle, c', k0. repeat split; auto. simpl. apply nth_upd_same. eapply nth_error_lt; eauto.
+Qed.
+
 (* ================================================================== the link is FIFO per pair *)
 Definition chan (a b : nat) (net : list packet) : list packet := filter (same_pair a b) net.
 
@@ -1549,7 +1663,7 @@ Proof.
       rewrite (filter_remove_first _ _ _ _ Hk); [reflexivity | apply same_pair_eq; auto | assumption].
     - simpl. now rewrite (filter_remove_other _ _ _ _ Hk E). }
   destruct (nth_error (st_cs s) dst) as [c|].
-  - destruct (on_message (length (st_cs s)) dst c m) as [[c' e] o]. inversion H; subst. simpl st_net.
+  - destruct (on_message (st_cs s) (length (st_cs s)) dst c m) as [[c' e] o]. inversion H; subst. simpl st_net.
     unfold chan in *. rewrite filter_app, app_assoc, Hrem. reflexivity.
   - inversion H; subst. simpl st_net. unfold chan in *. simpl. now rewrite app_nil_r.
 Qed.
